@@ -9,11 +9,11 @@ open A2Verif.Fs.Fat
 theorem exec_coh {d : Disk} (h : Coh d) (steps : List Step) : Coh (exec d steps).2 :=
   (exec_sim steps (dsim_refl h)).2.coh'
 
-open A2Verif.FsFat (exDisk exFat exDisk_geo exDisk_coh)
+open A2Verif.FsFat (exDisk exDisk_inv)
 
-/-- the 24-sector FAT12 volume of `Lemmas/FsFatExample.lean` (formatted and filled by the model, all in the kernel) is coherent -/
-theorem exDisk_coh' : Coh exDisk :=
-  ⟨exDisk_geo, ⟨exFat, ⟨exDisk_coh.size, exDisk_coh.bytes⟩, Or.inl exDisk_coh.isOpen⟩⟩
+/-- the 24-sector FAT12 volume of `Lemmas/FsFatExample.lean` (formatted and filled by the model; it satisfies the
+refinement invariant `FsFat.Inv`) is coherent -/
+theorem exDisk_coh' : Coh exDisk := coh_of_inv exDisk_inv
 
 /-- delete the two-cluster file `A.B`: the two freed clusters are free in the buffer only -/
 def exD : Disk := (exec exDisk [.op (.delete [65, 46, 66])]).2
